@@ -1,5 +1,5 @@
 """C16 - PRF and hash wrappers against independent references (engine E1)."""
-import hmac, hashlib
+import hmac, hashlib, itertools
 from mc import core, det
 
 PROPERTY = 'C16'
@@ -58,7 +58,7 @@ def describe(tier):
                    else 'the FULL box keys 0..80 x messages 0..200 x outputs 1..200'),
         'bounds': 'quick: boundary grid; thorough: full box 81 x 201 x 200 per digest',
         'assumptions': ['key and message bytes are DRBG values (one per length); distinctness is decided on a 2000-element DRBG set'],
-        'must_be_nonzero': ['prf-equal-reference', 'hash-equal-reference', 'tls-vector', 'hash-long-output-equal-reference', 'prf-long-output-equal-reference', 'contract-refused', 'distinct-set', 'prf-histories'],
+        'must_be_nonzero': ['prf-equal-reference', 'hash-equal-reference', 'tls-vector', 'hash-long-output-equal-reference', 'prf-long-output-equal-reference', 'prf-objects-alive-at-once', 'contract-refused', 'distinct-set', 'prf-histories'],
     }
 
 
@@ -240,7 +240,6 @@ def run_unit(p, tier, seed):
         # call histories on ONE PRF / hash object: every sequence of length <= 4 over {valid call under k1, valid call under k2,
         # call refused for its message length under k1 / k2, call refused for its key length}; every valid call must still equal
         # the reference for ITS key and message, whatever was called (and refused) before
-        import itertools
         PRF = get_prf_implementation('HmacPRF')
         g = det.rng(seed, 'c16-hist')
         k1, k2 = g.randbytes(16), g.randbytes(16)
@@ -321,6 +320,29 @@ def run_unit(p, tier, seed):
                     must_raise('both-declared', lambda: f(bytes(ak), bytes(am)), {'digest': h, 'declared': [kl, ml], 'actual': [ak, am]})
                 if f(b'K' * kl, b'M' * ml) != p_hash(b'K' * kl, b'M' * ml, 24, h):
                     r.v(PROPERTY, 'HmacPRF', 'differs-from-rfc5246', 'both-declared', {'digest': h, 'declared': [kl, ml]}, 'reference', 'differs')
+        # several PRF objects with DIFFERENT declared lengths alive at once, used in every order after all of them exist: each
+        # enforces its own contract and computes its own function
+        objs = {'A': (PRF(output_length=24, key_length=16, message_length=8), 16, 8, 24, 'sha1'),
+                'B': (PRF(output_length=40, key_length=33, message_length=24, hash_func_name='sha256'), 33, 24, 40, 'sha256'),
+                'C': (PRF(output_length=16), None, None, 16, 'sha1'),
+                'D': (PRF(output_length=20, key_length=16), 16, None, 20, 'sha1')}
+        for order in itertools.permutations(objs):
+            for nm in order:
+                f, kl, ml, n, h = objs[nm]
+                for ak, am in ((16, 8), (33, 24), (16, 24), (5, 3)):
+                    ok = (kl is None or ak == kl) and (ml is None or am == ml)
+                    c_ = {'objects_alive': sorted(objs), 'used': nm, 'order': list(order), 'key': ak, 'message': am}
+                    if ok:
+                        r['evaluations'] += 1
+                        try:
+                            if f(b'K' * ak, b'M' * am) != p_hash(b'K' * ak, b'M' * am, n, h):
+                                r.v(PROPERTY, 'HmacPRF', 'differs-from-rfc5246', 'objects-alive-at-once', c_, 'reference', 'differs')
+                            else:
+                                r.count('prf-objects-alive-at-once')
+                        except Exception as e:
+                            r.v(PROPERTY, 'HmacPRF', 'contract', 'own-valid-input-refused-while-other-objects-exist', c_, 'accepted', core.exc_text(e))
+                    else:
+                        must_raise('objects-alive-at-once', lambda: f(b'K' * ak, b'M' * am), c_)
         for name in ('nope', 'sha-1', 'SHA1x', ''):
             must_raise('unknown-digest-prf', lambda: PRF(output_length=8, hash_func_name=name)(b'k', b'm'), {'digest': name})
             must_raise('unknown-digest-hash', lambda: get_hash_implementation(name)(output_length=8)(b'm'), {'hash': name})
